@@ -191,15 +191,18 @@ func (c07) Gen(r *world.Rng, tier string, n int) interface{} {
 			ev = kinds[1+r.Intn(len(kinds)-1)]
 		}
 		haveNMI = haveNMI || ev.Kind == world.EvNMI
-		if r.Chance(1, 4) {
+		switch x := r.Intn(8); {
+		case x < 2:
 			ev.AtTick = uint64(r.Range(1, 1500))
-		} else {
+		case x == 2 && i > 0:
+			ev.OnRet = true // daisy chain: raised from inside the RETI/RETN notification of an earlier handler
+		default:
 			ev.Boundary = r.Intn(c07MaxN/2 + 1)
 		}
 		sc.Events = append(sc.Events, ev)
 	}
 	// bias: second request lands inside the first one's handler
-	if r.Chance(1, 2) && sc.Events[0].AtTick == 0 && sc.Events[1].AtTick == 0 {
+	if r.Chance(1, 2) && sc.Events[0].AtTick == 0 && sc.Events[1].AtTick == 0 && !sc.Events[1].OnRet {
 		sc.Events[1].Boundary = sc.Events[0].Boundary + r.Range(1, sc.HSteps)
 	}
 	return sc
@@ -245,6 +248,14 @@ func c07Run(sc *C07Sc, evs []world.Event, budget int, env *Env) (*c07Final, *Vio
 				cls = "inside-block-repeat"
 			} else if si.Before.PC >= c07HBase && si.Before.PC < c07HBase+0x1000 || si.Before.PC < 0x100 {
 				cls = "inside-handler(nested)"
+			} else if m.Bus.Mem[si.Before.PC-1] == 0xfb {
+				cls = "right-after-EI"
+			} else if !si.Before.IFF1 {
+				cls = "inside-DI-section"
+			} else if si.Before.PC >= gen.SubBase && si.Before.PC < c07HBase {
+				cls = "inside-subroutine"
+			} else if op := m.Bus.Mem[si.Before.PC]; op == 0x10 || op == 0xc1 {
+				cls = "inside-DJNZ-loop"
 			}
 			kind := "NMI"
 			if si.Req.Type != z80.NMIType {
